@@ -60,7 +60,9 @@ pub fn point(site: &str, a: u64, b: u64) {
     let s = sched();
     let mut g = s.st.lock().unwrap_or_else(|e| e.into_inner());
     g.log.push((me, site.to_string(), a, b));
-    if !g.enabled {
+    // the thread that drives the schedule never parks itself: code under test that reaches a hook point on the driver's own
+    // thread (a change that runs the wrapped sink inside flush(), say) must not deadlock the harness
+    if !g.enabled || me == DRIVER_TID.load(Ordering::SeqCst) {
         return;
     }
     g.parked.insert(me, (site.to_string(), a, b));
@@ -80,6 +82,7 @@ pub fn point(site: &str, a: u64, b: u64) {
 }
 
 static EXITED: AtomicU64 = AtomicU64::new(0);
+static DRIVER_TID: AtomicU64 = AtomicU64::new(0);
 
 /// number of threads of this process (hook-independent evidence that a background thread is gone)
 fn tasks() -> usize {
@@ -104,6 +107,12 @@ fn set_align(site: u64, n: u64) {
     ALIGN_COUNT.store(0, Ordering::SeqCst);
     ALIGN_SITE.store(site, Ordering::SeqCst);
 }
+/// rendezvous of harness threads themselves (mode 4): used right before a call whose first instructions race
+fn align_now() {
+    if ALIGN_SITE.load(Ordering::Relaxed) == 4 {
+        align_wait("harness.now");
+    }
+}
 fn align_wait(site: &str) {
     let want = ALIGN_SITE.load(Ordering::Relaxed);
     if want == 3 {
@@ -114,7 +123,7 @@ fn align_wait(site: &str) {
         }
         return;
     }
-    if want == 0 || (want == 1) != (site == "q.submit.begin") || (want == 2) != (site == "q.submit.sent") {
+    if want == 0 || (want == 1) != (site == "q.submit.begin") || (want == 2) != (site == "q.submit.sent") || (want == 4) != (site == "harness.now") {
         return;
     }
     let g = ALIGN_GEN.load(Ordering::SeqCst);
@@ -246,7 +255,16 @@ struct GateSink(Arc<Shared>);
 impl MetricSink for GateSink {
     fn emit(&self, m: &str) -> io::Result<usize> {
         let s = &self.0;
-        s.entered.fetch_add(1, Ordering::SeqCst);
+        let nth = s.entered.fetch_add(1, Ordering::SeqCst);
+        if nth >= 3000 {
+            // a background thread that calls the wrapped sink without end (for example retrying one metric for ever): the
+            // first repetitions are in the trace and already judged; what follows is neither logged nor allowed to spin hot
+            if nth == 3000 {
+                tr().ev(json!({"ev":"note","what":"the wrapped sink was entered more than 3000 times in one scenario: further entries are not logged"}));
+            }
+            std::thread::sleep(Duration::from_millis(2));
+            return Err(io::Error::new(io::ErrorKind::Other, "harness: entry limit"));
+        }
         tr().ev(json!({"ev":"wenter","m":lbl(m),"tid":tid()}));
         point("w.enter", 0, 0);
         {
@@ -333,7 +351,12 @@ fn build_sink(sh: &Arc<Shared>, cap: Option<usize>, eh: bool) -> QueuingMetricSi
     }
     // the two builder options are given in either order (every second builder: handler first)
     let handler_first = FLIP.fetch_add(1, Ordering::Relaxed) % 2 == 1;
-    let mut b = QueuingMetricSink::builder();
+    // the three ways to obtain a builder, in turn
+    let mut b = match FLIP.fetch_add(1, Ordering::Relaxed) % 3 {
+        0 => QueuingMetricSink::builder(),
+        1 => cadence::QueuingMetricSinkBuilder::new(),
+        _ => cadence::QueuingMetricSinkBuilder::default(),
+    };
     for step in 0..2 {
         let do_cap = (step == 0) != handler_first;
         if do_cap {
@@ -356,13 +379,21 @@ fn cap_json(cap: Option<usize>) -> u64 {
     cap.map(|c| c as u64).unwrap_or(1_000_000)
 }
 
+/// long waits that expired so far: after three of them the tree under test is known to be broken (each has already produced
+/// its evidence) and the remaining long waits are cut to one second, so that a check of a broken tree still ends in minutes
+static EXPIRED_LONG_WAITS: AtomicU64 = AtomicU64::new(0);
 fn wait_until(limit: Duration, mut f: impl FnMut() -> bool) -> bool {
+    let long = limit >= Duration::from_secs(5);
+    let limit = if long && EXPIRED_LONG_WAITS.load(Ordering::Relaxed) >= 3 { Duration::from_secs(1) } else { limit };
     let t0 = Instant::now();
     loop {
         if f() {
             return true;
         }
         if t0.elapsed() > limit {
+            if long {
+                EXPIRED_LONG_WAITS.fetch_add(1, Ordering::Relaxed);
+            }
             return false;
         }
         std::thread::sleep(Duration::from_micros(200));
@@ -387,6 +418,7 @@ fn hash_outcome(seed: u64, m: &str, perr: u32, ppanic: u32) -> Out {
 
 fn do_emit(sink: &QueuingMetricSink, h: u64, m: &str) -> Option<bool> {
     tr().ev(json!({"ev":"ecall","h":h,"m":lbl(m),"tid":tid()}));
+    align_now();
     let r = catch_unwind(AssertUnwindSafe(|| sink.emit(m)));
     match r {
         Ok(Ok(n)) => {
@@ -485,6 +517,7 @@ pub fn stress(a: &Args) {
     let mut total_emits = 0u64;
     let mut sample_cfg = json!(null);
     let mut blocked_drop_us: Vec<u64> = vec![];
+    let mut stop_all = false;
     for run in 0..runs {
         let cap: Option<usize> = [None, Some(0), Some(1), Some(2), Some(3), Some(8), Some(1), Some(2), Some(5), Some(6), Some(7)][rng.random_range(0..11)];
         let eh = rng.random_bool(0.6);
@@ -559,6 +592,14 @@ pub fn stress(a: &Args) {
                         do_drop(std::mem::replace(&mut sink, c), h);
                         h = my_next;
                     }
+                    if prng.random_range(0..8) == 0 {
+                        // flush() / stats() of the queuing sink delegate to the wrapped sink on this thread (logged as `wother`);
+                        // they must not run queued metrics or the error handler here
+                        tr().ev(json!({"ev":"fcall","tid":tid()}));
+                        if catch_unwind(AssertUnwindSafe(|| (sink.flush().is_ok(), sink.stats()))).is_err() {
+                            tr().ev(json!({"ev":"epanic","m":"flush/stats"}));
+                        }
+                    }
                     if prng.random_range(0..4) == 0 {
                         std::thread::yield_now();
                     }
@@ -593,11 +634,10 @@ pub fn stress(a: &Args) {
         }
         // producers never block on the wrapped sink: with the gate closed they must all return
         let mut hung = false;
+        let mut stuck = vec![];
         for j in joins {
-            let t0 = Instant::now();
-            while !j.is_finished() && t0.elapsed() < Duration::from_secs(20) {
-                std::thread::sleep(Duration::from_millis(1));
-            }
+            // (same budget as every long wait: after three expired ones the tree is known to be broken)
+            wait_until(Duration::from_secs(20), || j.is_finished());
             if j.is_finished() {
                 if let Ok(x) = j.join() {
                     live.push(x);
@@ -605,6 +645,7 @@ pub fn stress(a: &Args) {
             } else {
                 tr().ev(json!({"ev":"ehang","m":"?"}));
                 hung = true;
+                stuck.push(j);
             }
         }
         stop_sampler.store(true, Ordering::SeqCst);
@@ -616,6 +657,24 @@ pub fn stress(a: &Args) {
         set_gate(&sh, true);
         if hung || live.is_empty() {
             tr().ev(json!({"ev":"abandon"}));
+            // the producers that were stuck must not write into the next scenario's trace: once the gate is open they finish;
+            // if they still do not, nothing that follows could be trusted and the driver stops here
+            let mut clean = wait_until(Duration::from_secs(10), || stuck.iter().all(|j| j.is_finished()));
+            if clean {
+                // ... and neither must its background thread: every handle is dropped and the wrapped sink released first
+                for j in stuck {
+                    if let Ok(x) = j.join() {
+                        live.push(x);
+                    }
+                }
+                drop(live);
+                clean = wait_until(Duration::from_secs(10), || sh.dropped.load(Ordering::SeqCst));
+            }
+            if !clean {
+                tr().ev(json!({"ev":"reset","cap":cap_json(None),"eh":false,"run":9999,"stopped_after_stuck_threads":true}));
+                stop_all = true;
+                break;
+            }
             continue;
         }
         // bounded liveness: everything accepted is delivered while handles are alive
@@ -689,6 +748,12 @@ pub fn stress(a: &Args) {
         let exited = worker_gone(base_tasks);
         tr().ev(json!({"ev":"end","released":released,"exited":exited}));
     }
+    if stop_all {
+        cadence::verif::install(None);
+        tr().finish();
+        summary(json!({"engine":"queue-stress","seed":seed,"runs":runs,"emits":total_emits,"events":tr().count(),"sample":sample_cfg,"stopped_early":true}));
+        return;
+    }
     // C09 "dropping a handle never blocks": the quickest of all stopping drops made while the wrapped sink was held blocked
     // (one per scenario, judged together in a scenario of their own: a minimum is insensitive to scheduling noise)
     tr().ev(json!({"ev":"reset","cap":cap_json(None),"eh":false,"run":1999,"latency_summary":true}));
@@ -742,6 +807,59 @@ pub fn stress(a: &Args) {
         }
         let released = wait_until(Duration::from_secs(10), || sh.dropped.load(Ordering::SeqCst));
         tr().ev(json!({"ev":"end","released":released,"exited":worker_gone(base_tasks)}));
+    }
+    // ---- first emits on a fresh sink (C08): 3 pinned producers, each on its own clone of a sink nobody has used yet, enter their
+    // very first emit at the same instant (whatever the sink sets up lazily is set up under contention), then emit a few more
+    for r in 0..a.num("fresh-rounds", 40) {
+        let cap: Option<usize> = if r % 2 == 0 { None } else { Some(16) };
+        tr().ev(json!({"ev":"reset","cap":cap_json(cap),"eh":false,"run":2500 + r,"fresh":true}));
+        EXITED.store(0, Ordering::SeqCst);
+        let base_tasks = tasks();
+        let sh = new_shared(true);
+        let original = build_sink(&sh, cap, false);
+        let nthr = 3u64;
+        set_align(4, nthr);
+        let start = Arc::new(std::sync::Barrier::new(nthr as usize));
+        let okc = Arc::new(AtomicU64::new(0));
+        let mut js = vec![];
+        for p in 0..nthr {
+            let h = 2 + p;
+            tr().ev(json!({"ev":"clone","h":1,"h2":h}));
+            let s = original.clone();
+            let (start, okc) = (start.clone(), okc.clone());
+            js.push(std::thread::spawn(move || {
+                pin_to(1 + p + 3 * (r % 4));
+                start.wait();
+                for i in 0..5 {
+                    if i == 1 {
+                        // only the first emit is aligned
+                        ALIGN_SITE.store(0, Ordering::SeqCst);
+                    }
+                    if let Some(true) = do_emit(&s, h, &format!("n{}.{}", p, i)) {
+                        okc.fetch_add(1, Ordering::SeqCst);
+                    }
+                }
+                (s, h)
+            }));
+        }
+        let mut live: Vec<(QueuingMetricSink, u64)> = vec![(original, 1)];
+        for j in js {
+            if let Ok(x) = j.join() {
+                live.push(x);
+            }
+        }
+        set_align(0, 2);
+        total_emits += 5 * nthr;
+        let want = okc.load(Ordering::SeqCst);
+        wait_until(Duration::from_secs(10), || sh.left.load(Ordering::SeqCst) >= want && stat(|| live[0].0.drained()) >= want);
+        sample(&live[0].0, "quiesce");
+        while let Some((s, h)) = live.pop() {
+            do_drop(s, h);
+        }
+        let released = wait_until(Duration::from_secs(10), || sh.dropped.load(Ordering::SeqCst));
+        // every background thread this sink ever started must be gone (not only the one that reported its exit)
+        let gone = wait_until(Duration::from_secs(2), || tasks() <= base_tasks);
+        tr().ev(json!({"ev":"end","released":released,"exited":worker_gone(base_tasks) && (gone || tasks() == usize::MAX)}));
     }
     // ---- stalled increment (C15 "never wraps around", C20): a producer rests between try_send and incr_submitted while the
     // worker delivers the metric, so drained exceeds submitted for two milliseconds; a sampler reads the counters meanwhile
@@ -920,6 +1038,7 @@ struct EmitJob {
 pub fn replay(a: &Args) {
     let input = std::fs::read_to_string(a.req("in")).expect("read behaviours");
     let maxdiv = a.num("maxdiv", 4);
+    DRIVER_TID.store(tid(), Ordering::SeqCst);
     let _ = TRACE.set(Arc::new(Trace::create(&a.req("out"))));
     install_tracer(false);
     let mut nbeh = 0u64;
@@ -958,8 +1077,21 @@ pub fn replay(a: &Args) {
         let mut worker = match wait_new_thread("q.run.enter", &known) {
             Some(t) => t,
             None => {
+                // the code does not start its background thread the way the model does: a divergence like any other
                 tr().ev(json!({"ev":"abandon","why":"worker thread did not start"}));
                 sched_enable(false);
+                ndiv += 1;
+                if divs.len() < 5 {
+                    divs.push(json!({"beh":nbeh,"why":"no background thread reached q.run.enter after the sink was built","behaviour":b.clone()}));
+                }
+                // end the scenario properly (the only handle is dropped, the wrapped sink must be released)
+                if let Some(s) = handles.remove(&1) {
+                    if let Ok(s) = Arc::try_unwrap(s) {
+                        do_drop(s, 1);
+                    }
+                }
+                let released = wait_until(Duration::from_secs(10), || sh.dropped.load(Ordering::SeqCst));
+                tr().ev(json!({"ev":"end","released":released,"exited":worker_gone(base_tasks)}));
                 continue;
             }
         };
@@ -1026,6 +1158,7 @@ pub fn replay(a: &Args) {
                     "Delegate" => {
                         // flush() and stats() run the wrapped sink on THIS thread (logged by the wrapped sink as `wother`)
                         let sink = handles.get(&h).ok_or("no such handle")?.clone();
+                        tr().ev(json!({"ev":"fcall","tid":tid()}));
                         match catch_unwind(AssertUnwindSafe(|| (sink.flush().is_ok(), sink.stats()))) {
                             Ok((true, _)) => Ok(()),
                             Ok((false, _)) => Err("flush of the queuing sink failed although the wrapped flush is Ok".into()),
